@@ -126,6 +126,8 @@ pub fn case(sink: &mut Sink, model: &mut Model, s: &Scn, class: &str) {
 const PATTERNS: &[&str] = &["*", "foo", "sub/*", "f?o", "[a-f]oo", "a**b", "["];
 const PREFIXES: &[Option<&str>] = &[None, Some("sub"), Some("dst")];
 const UNIVERSE: &[&str] = &["foo", "bar", "sub/foo", "dst/foo"];
+/// names that begin with a prefix's characters without the separator, next to the real thing
+const UNIVERSE2: &[&str] = &["subfoo", "sub/foo", "dstfoo", "dst/foo"];
 
 fn all_rules() -> Vec<ArtifactRule> {
     let mut v = vec![];
@@ -158,10 +160,14 @@ fn all_rules() -> Vec<ArtifactRule> {
 
 fn gen_arts(r: &mut Rng, normalized: bool) -> Vec<(String, u8)> {
     let mut v = vec![];
-    for p in UNIVERSE {
+    let uni = if r.chance(2, 3) { UNIVERSE } else { UNIVERSE2 };
+    for p in uni {
         if r.chance(1, 2) {
             v.push((p.to_string(), 1 + r.below(2) as u8));
         }
+    }
+    if r.chance(1, 6) {
+        v.push((r.pick(&["subfoo", "dstfoo", "sub.foo", "sub", "dst", "su/foo", "subb/foo"]).to_string(), 1 + r.below(2) as u8));
     }
     if !normalized && r.chance(1, 2) {
         let odd = ["./foo", "sub//foo", "a/../foo", "/abs/foo", "sub/", ".", "", "..", "foo/.", "\u{e9}/x"];
@@ -248,7 +254,14 @@ pub fn run(cfg: &Cfg) {
         Scn { item: "it".into(), mats: vec![m("*", Some("sub"), Artifact::Materials, Some("dst"), "other")], prods: vec![ArtifactRule::Disallow(vp("sub/*"))],
               links: vec![("it".into(), vec![("sub/foo".into(), 1)], vec![("sub/foo".into(), 1)]), ("other".into(), vec![("dst/foo".into(), 1)], vec![])] },
     ];
-    for s in &corpus {
+    let corpus2 = vec![
+        // a name that merely begins with the prefix's characters is not under the prefix
+        Scn { item: "it".into(), mats: vec![m("*", Some("sub"), Artifact::Materials, None, "other"), ArtifactRule::Disallow(vp("*"))], prods: vec![],
+              links: vec![("it".into(), vec![("subfoo".into(), 1)], vec![]), ("other".into(), vec![("foo".into(), 1)], vec![])] },
+        Scn { item: "it".into(), mats: vec![m("*", None, Artifact::Materials, Some("dst"), "other"), ArtifactRule::Disallow(vp("*"))], prods: vec![],
+              links: vec![("it".into(), vec![("foo".into(), 1)], vec![]), ("other".into(), vec![("dstfoo".into(), 1)], vec![])] },
+    ];
+    for s in corpus.iter().chain(corpus2.iter()) {
         case(&mut sink, &mut model, s, "corpus");
     }
 
@@ -256,14 +269,14 @@ pub fn run(cfg: &Cfg) {
     //      over every artifact universe subset with one digest choice
     let mut scope = 0u64;
     let subsets = if cfg.thorough { 16 } else { 16 };
-    for rule in &rules {
+    for (uni, rule) in [UNIVERSE, UNIVERSE2].iter().flat_map(|u| rules.iter().map(move |rl| (*u, rl))) {
         for mask_m in 0..subsets {
             for mask_p in [0usize, 1, 5, 10, 15] {
                 if !cfg.thorough && (mask_m % 3 != 0) {
                     continue;
                 }
                 let pick = |mask: usize, dig: u8| -> Vec<(String, u8)> {
-                    UNIVERSE.iter().enumerate().filter(|(i, _)| mask >> i & 1 == 1).map(|(_, p)| (p.to_string(), dig)).collect()
+                    uni.iter().enumerate().filter(|(i, _)| mask >> i & 1 == 1).map(|(_, p)| (p.to_string(), dig)).collect()
                 };
                 for (other_m, other_p) in [(pick(15, 1), pick(15, 1)), (pick(5, 2), pick(10, 1))] {
                     for in_products in [false, true] {
@@ -281,7 +294,7 @@ pub fn run(cfg: &Cfg) {
             }
         }
     }
-    sink.note(&format!("systematic scope: {} scenarios = every single rule over kinds x patterns {:?} x optional prefixes {:?} x MATERIALS/PRODUCTS x present/absent step, followed by DISALLOW *, over artifact universes drawn from {:?}", scope, PATTERNS, PREFIXES, UNIVERSE));
+    sink.note(&format!("systematic scope: {} scenarios = every single rule over kinds x patterns {:?} x optional prefixes {:?} x MATERIALS/PRODUCTS x present/absent step, followed by DISALLOW *, over artifact universes drawn from {:?} and {:?}", scope, PATTERNS, PREFIXES, UNIVERSE, UNIVERSE2));
 
     // ---- random rule lists (length 0..5), normalized and not
     let n = if cfg.thorough { 60_000 } else { 6_000 };
